@@ -185,7 +185,7 @@ func (e *Engine) verifyFuncMode(fn *ssa.Function, cfg SolverCfg, mode string) *F
 	}
 	var rs []string
 	secs := 0.0
-	if len(checked) > 0 {
+	if len(checked) > 0 && !vc.ringMode { // ring mode: only the sliced, read-expanded single queries are tractable
 		var out string
 		out, secs = runSolver(solvers[0], file, incT, hard)
 		rs = parseResults(out)
